@@ -169,19 +169,6 @@ def resolve(st: State, op):
     r = op[1:] + [0] * 12
     model = st.model
     if kind in DECL_INTENTS:
-        if kind == 'dup_symbol' and r[1] % 5 >= 3:
-            # a derived type of a fresh dimension whose reference symbol
-            # is taken: rejected, and the dimension must stay available
-            act = decl.resolve(model, ['derived_type'] + r[2:])
-            if act is None or act['expect'] == 'reject' or \
-                    not (act['ref_sym'] or act['auto_ref']):
-                return None
-            s = decl._pick(model.uorder, r[0])
-            if s is None:
-                return None
-            act.update(ref_sym=s, auto_ref=False, expect='reject',
-                       bad='dup_symbol')
-            return act
         return decl.resolve(model, op)
     n = model.fresh()
     if kind == 'evict':
@@ -563,6 +550,15 @@ class Env16(decl.Env):
         self.convs = {}
 
 
+def type_key(env, cls):
+    """The declared type this class object is (identity, not name): a class
+    nobody declared successfully is a ghost."""
+    for k, c in env.types.items():
+        if c is cls:
+            return k
+    return 'ghost:' + getattr(cls, '__name__', '?')
+
+
 def perform(env: Env16, act):
     from decimalfp import Decimal
     from quantity import Quantity, QuantityMeta
@@ -575,7 +571,7 @@ def perform(env: Env16, act):
             return 'ok', {'value': [
                 f"{amnt.numerator}/{amnt.denominator}",
                 None if unit is None else unit.symbol,
-                None if unit is None else unit.qty_cls.__name__]}
+                None if unit is None else type_key(env, unit.qty_cls)]}
         except Exception as e:      # noqa
             return 'exc', type(e).__name__
     if a == 'conv_new':
@@ -640,15 +636,20 @@ def _observe(env: Env16, symbols, typenames, pairs=(), final=True):
     from quantity.money import Money, ExchangeRate
     obs = {}
     live = []
+
+    def tkey(cls):
+        return type_key(env, cls)
+
     for s in symbols:
         try:
             u = Unit(s)
-            obs['Unit:' + s] = getattr(u.qty_cls, '__name__', None)
+            obs['Unit:' + s] = [tkey(u.qty_cls),
+                                env.units.get(s) is u or s not in env.units]
             live.append(u)
         except Exception as e:      # noqa
             obs['Unit:' + s] = 'exc:' + type(e).__name__
         try:
-            obs['parse:' + s] = type(Quantity('1 ' + s)).__name__
+            obs['parse:' + s] = tkey(type(Quantity('1 ' + s)))
         except Exception as e:      # noqa
             obs['parse:' + s] = 'exc:' + type(e).__name__
     for tn in ['Quantity'] + typenames:
@@ -673,7 +674,7 @@ def _observe(env: Env16, symbols, typenames, pairs=(), final=True):
                     obs[f'{u.symbol}{opn}{v.symbol}'] = [
                         f"{amnt.numerator}/{amnt.denominator}",
                         None if unit is None else unit.symbol,
-                        None if unit is None else unit.qty_cls.__name__]
+                        None if unit is None else tkey(unit.qty_cls)]
                 except Exception as e:      # noqa
                     obs[f'{u.symbol}{opn}{v.symbol}'] = \
                         'exc:' + type(e).__name__
@@ -686,7 +687,7 @@ def _observe(env: Env16, symbols, typenames, pairs=(), final=True):
             obs[f'{s1}{opn}{s2}'] = [
                 f"{amnt.numerator}/{amnt.denominator}",
                 None if unit is None else unit.symbol,
-                None if unit is None else unit.qty_cls.__name__]
+                None if unit is None else tkey(unit.qty_cls)]
         except Exception as e:      # noqa
             obs[f'{s1}{opn}{s2}'] = 'exc:' + type(e).__name__
     curs = Money.units()
